@@ -4305,6 +4305,14 @@ impl ZonedRound {
             .checked_add(Span::new().days_ranged(C(1).rinto()))
             .with_context(|| {
                 err!("failed to add 1 day to {start} to find length of day")
+            })?
+            // The day ends where the next civil day starts, which is not
+            // necessarily at the same clock time as the start of this day
+            // (e.g., when this day starts at 01:00 because of a DST gap at
+            // midnight).
+            .start_of_day()
+            .with_context(|| {
+                err!("failed to find end of day for {zdt}")
             })?;
         let span = start
             .timestamp()
